@@ -39,6 +39,11 @@ pub struct Shared {
     pub stall_value: Mutex<Option<Vec<u8>>>,
     pub stall_until: AtomicUsize,
     pub puts_done: AtomicUsize,
+    /// directed race: a point read of exactly this encoded key takes its value, then reports `gate_reached` and waits for
+    /// `gate_release` (or 3 s) before it returns -- "a cache-miss load that has read the store but not yet installed the value"
+    pub read_gate: Mutex<Option<Vec<u8>>>,
+    pub gate_reached: std::sync::atomic::AtomicBool,
+    pub gate_release: std::sync::atomic::AtomicBool,
 }
 
 #[derive(Clone, Default)]
@@ -150,7 +155,15 @@ impl KvDatabase for MockDb {
 
     fn get_wide_column<W: WideColumn, C: WideColumnValue<W>>(&self, key: &W::Key) -> Option<C> {
         self.0.gets.fetch_add(1, Ordering::Relaxed);
-        self.0.wide.lock().unwrap().get(&wide_key::<W, C>(key)).map(|b| dec::<C>(b))
+        let wk = wide_key::<W, C>(key);
+        let got = self.0.wide.lock().unwrap().get(&wk).map(|b| dec::<C>(b));
+        let gated = self.0.read_gate.lock().unwrap().as_ref() == Some(&wk);
+        if gated {
+            self.0.gate_reached.store(true, Ordering::SeqCst);
+            let t0 = std::time::Instant::now();
+            while !self.0.gate_release.load(Ordering::SeqCst) && t0.elapsed() < std::time::Duration::from_secs(3) { std::thread::yield_now(); }
+        }
+        got
     }
     fn scan_members<C: KeyOfSetColumn>(&self, key: &C::Key) -> Self::ScanMemberIterator<C> {
         self.0.scans.fetch_add(1, Ordering::Relaxed);
